@@ -73,6 +73,7 @@ UpdVerdict(cfg, st, e, u, k) ==
   LET c == e.c IN
   IF ~(c \in TimeComps(cfg)) THEN Fail("unknown-component", k)
   ELSE IF e.tb # st.time[c] THEN Fail("time-before", k)
+  ELSE IF Finished(cfg, st, c) THEN Fail("updated-after-finished", k)
   ELSE IF ~MayUpdate(cfg, st) THEN Fail("no-late-update", k)
   ELSE IF ~AllowedChoice(cfg, st, c) THEN Fail("choice", k)
   \* updated although it (transitively) waits for itself: an unbroken cycle was not reported (C04)
